@@ -35,7 +35,7 @@ def run(ctx):
     ctx.rule("R02.2", "release guard: every feasible iteration path that returns a batch crosses (a) the event-is-urgent edge after the push, or "
                       "(b) the false edge of `last.elapsed() < throttle.get()`, or (c) the is_zero edge of `throttle.get().saturating_sub(last.elapsed())` "
                       "with a non-empty set; there is no other way out")
-    ctx.rule("R02.3", "urgent bypass: an urgent event is pushed without filtering and the batch returns in the same iteration, without another recv")
+    ctx.rule("R02.3", "urgent bypass: an urgent event is pushed without filtering and the batch returns in the same iteration, without another recv; the priority an event carries is the one its source documents (Interrupt/Terminate urgent, other signals high, keyboard/fs normal) and send_event() queues with the caller's priority")
     ctx.rule("R02.4", "fresh throttle: every comparison that can release or hold a batch reads config.throttle.get() in the same iteration")
     ctx.rule("R02.5", "bounded wait: the recv timeout is the remaining window computed in the same iteration, so a stream of rejected events "
                       "re-enters the loop head with a shrinking bound and leaves through (c)")
@@ -172,6 +172,13 @@ def run(ctx):
         _c01b.batch_only_moved(ctx, "R02.2")
     except Skip:
         pass
+
+    # which events are urgent is decided where they are queued: Interrupt / Terminate only; a synthetic event keeps the caller's priority (rules shared with C01)
+    for fn_ in (_c01b.source_priorities, _c01b.synthetic_send):
+        try:
+            fn_(ctx, "R02.3")
+        except Skip:
+            pass
 
     # ---- R02.6
     P = "watchexec_events::event::Priority"
